@@ -359,6 +359,18 @@ def nodeBalanceOk (tol slack : Rat) (ins outs : List Rat) (demand leak : Rat) : 
 def nodeBalanceResidual (ins outs : List Rat) (demand leak : Rat) : Rat :=
   sumRat ins - sumRat outs - demand - leak
 
+/-- oracle: the parametric row of the link's kind and REPORTED status, evaluated (in `Float`) at the reported flow, heads,
+setting, is within `tol`; returns the residual too -/
+def linkLawResidual (hw : HWConsts) (pc : PumpConsts) (lit : RowLits) (s : LinkSpec) (env : Env Float) : Float :=
+  eval floatOps env (linkRow hw pc lit s)
+
+def linkLawOk (tol : Float) (hw : HWConsts) (pc : PumpConsts) (lit : RowLits) (s : LinkSpec) (env : Env Float) : Bool :=
+  let r := linkLawResidual hw pc lit s env
+  r.abs <= tol
+
+/-- oracle: no reverse flow beyond the flow tolerance (pumps, check-valve pipes) -/
+def noReverseOk (Qtol q : Rat) : Bool := decide (-Qtol ≤ q)
+
 /-! ### the requested demand (`Pattern.at`, `TimeSeries.at`, `Demands.at` are M2, `Model/Pattern.lean`) -/
 
 /-- the value `expected_demand_param` puts into the model and (DD) `store_results_in_network` reports:
@@ -376,8 +388,25 @@ def closeCV (Htol Qtol hs he q : Rat) : Bool :=
   else
     (if q < -Qtol then true else false)
 
-/-- `_CloseHeadPumpCondition.evaluate` (speed 1.0): no test on the flow -/
-def closeHeadPump (Htol A hs he : Rat) : Bool := decide (he - hs > A + Htol)
+/-- `_OpenCVCondition.evaluate` -/
+def openCV (Htol Qtol hs he q : Rat) : Bool :=
+  let dh := hs - he
+  if absRat dh > Htol then
+    (if dh < -Htol then false else if q < -Qtol then false else true)
+  else false
+
+/-- `_CloseHeadPumpCondition.evaluate` (speed 1.0) as the pinned tree codes it: no test on the flow -/
+def closeHeadPumpAsCoded (Htol A hs he : Rat) : Bool := decide (he - hs > A + Htol)
+
+/-- `_CloseHeadPumpCondition.evaluate`, REPAIRED (fixes/C02-head-pump-reverse-flow.patch): an open pump that runs backwards
+holds its end head at the shut-off head, so the head test cannot see it; the repaired condition also closes on reverse flow -/
+def closeHeadPump (Htol Qtol A hs he q : Rat) : Bool := decide (he - hs > A + Htol) || decide (q < -Qtol)
+
+/-- `_OpenHeadPumpCondition.evaluate`, REPAIRED: a closed pump is opened only below its shut-off head -/
+def openHeadPump (A hs he : Rat) : Bool := decide (he - hs ≤ A)
+
+/-- `_ClosePowerPumpCondition.evaluate`: `Hmax = 1e10`, no test on the flow -/
+def closePowerPump (Htol Hmax hs he : Rat) : Bool := decide (he - hs > Hmax + Htol)
 
 /-- status of a CV pipe / pump after one post-solve pass: the close control has priority `very_high` and
 runs last, the open control `very_low`; `status = Closed if _internal_status == Closed else _user_status` -/
@@ -413,6 +442,9 @@ structure ZLinkRow where
   pump : PumpCoef
   expr : Expr
   deriving Repr, Inhabited
+
+/-- `a < b` on `Rat` as a Bool (core instance; used by the coverage theorems) -/
+def ratLt (a b : Rat) : Bool := decide (a < b)
 
 /-- index of a leaf name, `none` when the model has no such leaf -/
 def leafIdx (names : List String) (n : String) : Option Nat :=
